@@ -20,7 +20,21 @@ def HP : Nat := 2305843009213693951
 
 def hstep (acc x : Nat) : Nat := (acc * 1000003 + x % HP + 1) % HP
 
-def val (seed i : Nat) : Nat := (seed + 1) * (i + 7) * 1000003 + i * i
+def PAT : Nat := 1048576
+def NPAT : Nat := 8
+
+def val (seed i : Nat) : Nat :=
+  if seed ≥ PAT then
+    match seed - PAT with
+    | 0 => 0
+    | 1 => 5
+    | 2 => 3 + 2 * (i % 2)
+    | 3 => if i = 1 then 9 else 0
+    | 4 => 18446744073709551615
+    | 5 => if i = 0 then 0 else 4
+    | 6 => i
+    | _ => 1 + 4 * ((i / 2) % 2)
+  else (seed + 1) * (i + 7) * 1000003 + i * i
 
 def bits (bs : List Bool) : String :=
   if bs.isEmpty then "-" else String.ofList (bs.map (fun b => if b then '1' else '0'))
@@ -141,27 +155,73 @@ def bval (F : FieldImpl) (agg : Bool) (d : Desc) (seed n : Nat) (x : Nat) : Stri
                 s!"{sh} v0={v0} h={vals.foldl hstep 0}"
               else s!"{sh} v={value (F.new x)}"
 
-def prep (F : FieldImpl) (n width : Nat) (ds : List Desc) : String :=
-  let O := ops F
-  let built := ds.zipIdx.foldr (fun (d, i) acc =>
-    match acc, d.build F i with
+/-- seeds of the assertion values in a `prep*` line (same rule as the harness) -/
+def prepSeed (i : Nat) (d : Desc) : Nat := if i % 3 == 2 then PAT + (i + d.first) % NPAT else i
+
+def buildAll (F : FieldImpl) (ds : List Desc) (i0 : Nat) : Option (List (Assertion Nat)) :=
+  (ds.zipIdx i0).foldr (fun (d, i) acc =>
+    match acc, d.build F (prepSeed i d) with
     | some l, .ok a => some (a :: l)
     | _, _ => none) (some [])
-  match built with
+
+/-- groups of one trace segment: description and hash of the merged evaluations at x0 = 7 with
+    state[col] = col + 11 and coefficient cc0 + position + 2 for the assertion at `position` of the
+    sorted list -/
+def segment (F : FieldImpl) (as : List (Assertion Nat)) (width n cc0 : Nat) : Option String :=
+  let O := ops F
+  match prepareAssertions as width n with
+  | .panic _ => none
+  | .ok sorted =>
+    match groupConstraints O sorted n, F.rootOfUnity (Nat.log2 n) with
+    | .ok groups, some g =>
+      match O.div O.one g with
+      | none => some "hang"
+      | some invG =>
+        let x0 := F.new 7
+        let gs := groups.map (fun grp =>
+          match grp.divisor.numerator with
+          | [(k, off)] => s!"{k}/{F.asInt off}:{",".intercalate (grp.columns.map toString)}"
+          | _ => "?")
+        let evals := groups.map (fun grp =>
+          let num := (sorted.zipIdx).foldl (fun (acc : Option Nat) (a, pos) =>
+            if a.stride == grp.stride && a.first == grp.first then
+              match acc, BConstraint.new O a invG with
+              | some acc, some c =>
+                some (O.add acc (O.mul (c.evalAt O x0 (F.new (a.column + 11))) (F.new (cc0 + pos + 2))))
+              | _, _ => none
+            else acc) (some O.zero)
+          match num, grp.divisor.evalAt O x0 with
+          | some num, some den =>
+            match O.div num den with
+            | some r => some (F.asInt r)
+            | none => none
+          | _, _ => none)
+        if evals.any (·.isNone) then some "hang"
+        else
+          let h := evals.foldl (fun h e => hstep h (e.getD 0)) 0
+          some s!"{if gs.isEmpty then "-" else ";".intercalate gs} e={h}"
+    | _, _ => none
+
+def prep (F : FieldImpl) (n width : Nat) (declared ncoef : Nat) (ds : List Desc) : String :=
+  match buildAll F ds 0 with
   | none => "panic"
   | some as =>
-    if !ctxOk width n || as.isEmpty then "panic"
-    else match prepareAssertions as width n with
-    | .panic _ => "panic"
-    | .ok sorted =>
-      match groupConstraints O sorted n with
-      | .panic _ => "panic"
-      | .ok groups =>
-        let gs := groups.map (fun g =>
-          match g.divisor.numerator with
-          | [(k, off)] => s!"{k}/{F.asInt off}:{",".intercalate (g.columns.map toString)}"
-          | _ => "?")
-        "ok " ++ ";".intercalate gs
+    if !ctxOk width n || declared == 0 || declared != as.length || ncoef != as.length then "panic"
+    else match segment F as width n 0 with
+      | none => "panic"
+      | some s => "ok " ++ s
+
+def prepa (F : FieldImpl) (n mainw auxw nmain : Nat) (ds : List Desc) : String :=
+  let nmain := min nmain ds.length
+  match buildAll F (ds.take nmain) 0, buildAll F (ds.drop nmain) nmain with
+  | some ma, some aa =>
+    -- TraceInfo::new_multi_segment / AirContext::new_multi_segment preconditions
+    if !(mainw ≥ 1 && mainw + auxw ≤ 255 && n ≥ 8 && isPow2 n) || ma.isEmpty
+        || (auxw == 0) != aa.isEmpty then "panic"
+    else match segment F ma mainw n 0, (if auxw == 0 then some "- e=0" else segment F aa auxw n ma.length) with
+      | some m, some x => s!"ok {m} | {x}"
+      | _, _ => "panic"
+  | _, _ => "panic"
 
 def lenStr : Except LenErr Unit → String
   | .ok () => "ok"
@@ -210,7 +270,7 @@ def exempt (n e blowup : Nat) (ds : List Degree) : String :=
     | .ok e' =>
       match fromTransition (ops F128.impl) n e' with
       | .panic _ => "panic"
-      | .ok d => s!"ok {e'} {degStr d.degree} {d.exemptions.length}"
+      | .ok d => s!"ok {e'} {degStr d.degree} {d.exemptions.length} cols={degStr (numCompositionColumns n ds e')}"
 
 def handleF (F : FieldImpl) : List String → String
   | ["tdivx", n, e, x] =>
@@ -239,8 +299,16 @@ def handleF (F : FieldImpl) : List String → String
     | _, _, _ => "bad-op"
   | "prep" :: n :: width :: ds =>
     match n.toNat?, width.toNat?, ds.mapM Desc.parse with
-    | some n, some width, some ds => prep F n width ds
+    | some n, some width, some ds => prep F n width ds.length ds.length ds
     | _, _, _ => "bad-op"
+  | "prepc" :: n :: width :: decl :: nc :: ds =>
+    match n.toNat?, width.toNat?, decl.toNat?, nc.toNat?, ds.mapM Desc.parse with
+    | some n, some width, some decl, some nc, some ds => prep F n width decl nc ds
+    | _, _, _, _, _ => "bad-op"
+  | "prepa" :: n :: mw :: aw :: nm :: ds =>
+    match n.toNat?, mw.toNat?, aw.toNat?, nm.toNat?, ds.mapM Desc.parse with
+    | some n, some mw, some aw, some nm, some ds => prepa F n mw aw nm ds
+    | _, _, _, _, _ => "bad-op"
   | _ => "bad-op"
 
 def handle : List String → String
